@@ -1,6 +1,8 @@
 """C18 — the registry maps each id to one reproducible configuration (DESIGN §3 C18)."""
 from __future__ import annotations
 
+import json
+
 import re
 from typing import Any, Dict, List, Optional, Tuple
 
@@ -45,6 +47,8 @@ def shards(tier: str, seed: int) -> List[Dict[str, Any]]:
     # every shipped id made in one process, in reverse registry order: state shared between environment classes or
     # instances (class-level caches) would make a configuration depend on what was made before
     out.append({"id": "registry|shipped_reverse_order", "kind": "shipped_reverse", "ids": list(reversed(ids)), "weight": 8.0})
+    for g in range(4):
+        out.append({"id": f"registry|after_siblings{g}", "kind": "after_siblings", "ids": ids[g::4], "weight": 6.0})
     out.append({"id": "registry|repo_tests_under_contracts", "kind": "pytest", "weight": 2.0})
     out += [{"id": f"registry|shared_kwargs_objects{i}", "kind": "shared_objects", "part": i, "weight": 6.0} for i in range(3)]
     return out
@@ -206,6 +210,13 @@ def run_ops(rep: Report, rng, count: int) -> None:
         if u < 0.3 or not mine:
             name = "Probe" + "".join(rng.choice(list("abcXYZ_.:")) for _ in range(int(rng.integers(1, 6))))
             ver = int(rng.integers(0, 30))
+            if mine and rng.random() < 0.35:
+                # an id that is a *substring* of one already registered (Env-v1 after Env-v12, CVRP-v0 after MultiCVRP-v0):
+                # a new id all the same
+                nm_, v_ = str(rng.choice(list(mine))).rsplit("-v", 1)
+                name = nm_[int(rng.integers(0, len(nm_))):]
+                ver = int(v_[: int(rng.integers(1, len(v_) + 1))])
+                rep.count("register_substring_of_existing")
             eid = f"{name}-v{ver}"
             raw = eid if rng.random() < 0.8 else f"{name}-v0{ver}"  # non-canonical spelling must land on the canonical id
             kw = {k: _kw_value(rng, 0) for k in rng.choice(["a", "b", "c", "d"], size=int(rng.integers(0, 4)), replace=False)}
@@ -564,6 +575,63 @@ def run_shared_objects(rep: Report, rng, tier: str, part: int = 0) -> None:
         rep.count("shared_object_traces", 7)
 
 
+# configurations of the same class that share a derived quantity with the registered one although their arguments differ
+# (RobotWarehouse: 3 rows of height 5 and 6 rows of height 2 give the same 20 x 10 floor as the registered 2 rows of height 8)
+SAME_SIZE_SIBLINGS = {
+    "RobotWarehouse": [dict(id="sib3x3h5", shelf_rows=3, shelf_cols=3, height=5, agents=4, sensor=1, queue=8, time_limit=20),
+                       dict(id="sib6x3h2", shelf_rows=6, shelf_cols=3, height=2, agents=4, sensor=1, queue=8, time_limit=20)],
+}
+
+
+def run_after_siblings(rep: Report, ids: List[str], tier: str, rng) -> None:
+    """make(id) in a process that has already built and used other configurations of the same class must behave like make(id) in
+    a fresh process (fingerprint: specs, two resets, 16 steps): what was built before is not one of the registered arguments."""
+    import os
+    import subprocess
+    import sys as _sys
+
+    import jax
+    import jumanji
+    from jumanji import registration as reg
+
+    from jmon import envs as E2
+    from jmon.fingerprint import fingerprint
+
+    for env_id in ids:
+        cls = reg._REGISTRY[env_id].entry_point.split(":")[-1]
+        built = 0
+        if cls in E2.ENVS:
+            sibs = [c for c in E2.configs(cls, tier)[1:] if "make_id" not in c and not c.get("light")][: (3 if tier == "quick" else 8)]
+            for c in SAME_SIZE_SIBLINGS.get(cls, []) + sibs:
+                try:
+                    e = E2.build(cls, c)
+                    s, t = jax.jit(e.reset)(jax.random.PRNGKey(3))
+                    jax.block_until_ready(s)
+                    built += 1
+                except Exception as ex:  # a sibling that cannot be built is a workload problem, not a verdict
+                    rep.notes.append(f"sibling {cls}|{c.get('id')} not built: {repr(ex)[:100]}")
+        rep.count("siblings_built_before_make", built)
+        rep.evaluated(1)
+        busy = fingerprint(jumanji.make(env_id))
+        env_ = dict(os.environ)
+        env_["JAX_PLATFORMS"] = env_.get("JAX_PLATFORMS", "cpu")
+        try:
+            out = subprocess.run([_sys.executable, "-m", "jmon.fingerprint", env_id], capture_output=True, text=True, timeout=600, env=env_, cwd=os.path.dirname(os.path.dirname(os.path.dirname(os.path.abspath(__file__)))))
+            line = [l for l in out.stdout.splitlines() if l.startswith("FINGERPRINT ")]
+            fresh = json.loads(line[-1][len("FINGERPRINT "):])[env_id] if line else None
+        except subprocess.TimeoutExpired:
+            fresh = None
+        if fresh is None:
+            rep.notes.append(f"fresh-process fingerprint of {env_id} not obtained")
+            rep.count("fresh_fingerprint_missing")
+            continue
+        rep.count("make_vs_fresh_process")
+        rep.digests.add("fp:" + env_id + busy)
+        if busy != fresh:
+            rep.violation("registry", env_id, "make_independent_of_earlier_constructions", {"id": env_id, "siblings_built_before": built, "fingerprint_here": busy, "fingerprint_fresh_process": fresh}, replay={"id": env_id}, qualifier="process_history")
+    E2.cleanup()
+
+
 def run_shard(shard: Dict[str, Any], rep: Report) -> None:
     from jmon import contracts
     from jmon.props.c16 import run_repo_tests_under_contracts
@@ -587,6 +655,8 @@ def run_shard(shard: Dict[str, Any], rep: Report) -> None:
         run_ops(rep, rng, shard["count"])
     elif shard["kind"] == "shipped_reverse":
         run_shipped_reverse(rep, shard["ids"], rng)
+    elif shard["kind"] == "after_siblings":
+        run_after_siblings(rep, shard["ids"], tier, rng)
     elif shard["kind"] == "shared_objects":
         run_shared_objects(rep, rng, tier, shard.get("part", 0))
     else:
@@ -605,7 +675,7 @@ def floors(tier: str, counters: Dict[str, int], per_env: Dict[str, Dict[str, int
     missed = []
     need = {"id_ok": 500, "id_malformed": 200, "id_versionless": 100, "id_noncanonical": 50, "register_new": 16, "register_duplicate": 16,
             "register_malformed": 5, "make_known": 40, "make_unknown": 5, "shipped_ids": 24, "documented_configuration_checked": 24, "reverse_order_ids": 24, "register_duplicate_noncanonical": 3,
-            "two_makes_steps": 200, "contract:parse_env_id.post": 500}
+            "two_makes_steps": 200, "contract:parse_env_id.post": 500, "make_vs_fresh_process": 20, "register_substring_of_existing": 5}
     for k, n in need.items():
         if counters.get(k, 0) < n:
             missed.append(f"clause {k} evaluated {counters.get(k, 0)} < {n} times")
